@@ -5,7 +5,7 @@
    machine of encoding/toml/decode.go over the parser's events (Toml/Decode.v).
    The CLI loop (export / import through the cue binary) is explored directly on
    the implementation by the check; there is no theorem about the CLI. *)
-From Verif Require Import Toml.Decode Toml.Proofs Toml.Emit.
+From Verif Require Import Toml.Decode Toml.Proofs Toml.Emit Toml.RoundTrip.
 From Coq Require Import List NArith Bool.
 Import ListNotations.
 
@@ -94,3 +94,90 @@ Theorem C12_sub_array_first_keeps_arrays_apart :
                (kc, OList [OStruct []])]).
 Proof. exact sub_array_first_keeps_arrays_apart. Qed.
 Print Assumptions C12_sub_array_first_keeps_arrays_apart.
+
+(* ---- decode o emit for ALL documents of the modelled data type (inline layout) ---- *)
+
+(* decodeExpr reads the value of every toml-safe document (no table has a key twice, hereditarily:
+   the boolean predicate wf) back as exactly its tree - arrays, inline tables, arrays of tables, to
+   any depth (induction on the document tree) - under every rooted key below which nothing has been
+   seen and no array of tables is open, and records only keys below that rooted key *)
+Theorem C12_decode_expr_to_value : forall d arrays rk seen,
+  wf d = true ->
+  (forall s, In s seen -> ~ pp rk s) ->
+  (forall a, In a arrays -> ~ pp rk (oa_key a)) ->
+  exists seen2,
+    decode_expr arrays rk (to_value d) seen = Ok (seen2, to_otree d) /\
+    (forall s, In s seen2 -> In s seen \/ pp rk s).
+Proof. exact decode_expr_to_value. Qed.
+Print Assumptions C12_decode_expr_to_value.
+
+(* root key-values are decoded exactly as one inline table: same tree or same error, all inputs *)
+Theorem C12_root_kvs_as_inline : forall fs,
+  decode (map (fun f => EKeyValue (fst f) (snd f)) fs) =
+  match decode_expr [] [] (VInline fs) [] with
+  | Ok (_, t) => Ok t
+  | Err e => Err e
+  end.
+Proof. exact root_kvs_as_inline. Qed.
+Print Assumptions C12_root_kvs_as_inline.
+
+(* decode (emit d) = Ok d, every toml-safe document, inline layout *)
+Theorem C12_decode_emit_inline : forall fs,
+  wf (DStruct fs) = true -> decode (emit_inline (DStruct fs)) = Ok (to_otree (DStruct fs)).
+Proof. exact decode_emit_inline. Qed.
+Print Assumptions C12_decode_emit_inline.
+
+(* ... and CUE evaluates that tree to the document itself (for every fuel: nothing is unified) *)
+Theorem C12_eval_to_otree : forall fuel d, wf d = true -> eval fuel (to_otree d) = Some d.
+Proof. exact eval_to_otree. Qed.
+Print Assumptions C12_eval_to_otree.
+
+Example C12_decode_emit_inline_example :
+  let d := [(ka, DLeaf 1%N); (kb, DList [DStruct [(ka, DLeaf 2%N); (kx, DList [])]; DStruct []]);
+            (kc, DStruct [(ka, DStruct [(ka, DLeaf 3%N)])])] in
+  wf (DStruct d) = true /\
+  decode (emit_inline (DStruct d)) = Ok (to_otree (DStruct d)) /\
+  eval 0 (to_otree (DStruct d)) = Some (DStruct d).
+Proof. exact decode_emit_inline_example. Qed.
+Print Assumptions C12_decode_emit_inline_example.
+
+(* the side condition is needed and its failure is an error, not a merge *)
+Example C12_decode_emit_inline_dup_rejected :
+  wf (DStruct [(ka, DLeaf 1%N); (ka, DLeaf 1%N)]) = false /\
+  decode (emit_inline (DStruct [(ka, DLeaf 1%N); (ka, DLeaf 1%N)])) = Err EDup.
+Proof. exact decode_emit_inline_dup_rejected. Qed.
+Print Assumptions C12_decode_emit_inline_dup_rejected.
+
+(* wf is compositional (closed under adding a field with a fresh key / concatenating lists / projection) *)
+Theorem C12_wf_struct_cons : forall k d fs,
+  wf (DStruct ((k, d) :: fs)) = negb (existsb (str_eqb k) (map fst fs)) && wf d && wf (DStruct fs).
+Proof. exact wf_struct_cons. Qed.
+Print Assumptions C12_wf_struct_cons.
+
+Theorem C12_wf_field : forall fs k d, wf (DStruct fs) = true -> In (k, d) fs -> wf d = true.
+Proof. exact wf_field. Qed.
+Print Assumptions C12_wf_field.
+
+(* ---- whole histories ---- *)
+
+(* a seen key stays seen along every accepted run that has no header above it *)
+Theorem C12_run_seen_persist : forall es s s2 k,
+  run s es = Ok s2 -> forallb (fun e => negb (purges k e)) es = true ->
+  mem_key k (st_seen s) = true -> mem_key k (st_seen s2) = true.
+Proof. exact run_seen_persist. Qed.
+Print Assumptions C12_run_seen_persist.
+
+(* [p] ... [p] (or [[p]]): whatever comes before, in between (no header properly above p) and after,
+   the document is never accepted - a table redefinition is an error, never a silent merge *)
+Theorem C12_table_twice_never_accepted : forall es1 p es2 es3 (closing : event),
+  (closing = ETable p \/ closing = EArrayTable p) ->
+  forallb (fun e => negb (purges (key_of p) e)) es2 = true ->
+  forall t, decode (es1 ++ ETable p :: es2 ++ closing :: es3) <> Ok t.
+Proof. exact table_twice_never_accepted. Qed.
+Print Assumptions C12_table_twice_never_accepted.
+
+Example C12_table_twice_in_two_elements_accepted :
+  decode [EArrayTable [ka]; ETable [ka; kb]; EArrayTable [ka]; ETable [ka; kb]] =
+  Ok (OStruct [(ka, OList [OStruct [(kb, OStruct [])]; OStruct [(kb, OStruct [])]])]).
+Proof. exact table_twice_in_two_elements_accepted. Qed.
+Print Assumptions C12_table_twice_in_two_elements_accepted.
